@@ -122,14 +122,18 @@ def do_job(job):
     return out
 
 
-def fresh_run(job, timeout=900):
-    """Run do_job(job) in a fresh interpreter."""
+def fresh_run(job, timeout=600):
+    """Run do_job(job) in a fresh interpreter.  A wall-clock timeout is reported as
+    {"setup_error": "timeout"...} with key "timeout": callers treat it as inconclusive (discard)."""
     env = dict(os.environ)
     env["PYTHONPATH"] = core.VERIF_DIR + os.pathsep + os.path.join(core.VERIF_DIR, ".deps")
-    proc = subprocess.run(
-        [sys.executable, "-m", "vlib.e2e"], input=json.dumps(job), capture_output=True, text=True,
-        env=env, timeout=timeout, cwd=core.VERIF_DIR,
-    )
+    try:
+        proc = subprocess.run(
+            [sys.executable, "-m", "vlib.e2e"], input=json.dumps(job), capture_output=True, text=True,
+            env=env, timeout=timeout, cwd=core.VERIF_DIR,
+        )
+    except subprocess.TimeoutExpired:
+        return {"timeout": True}
     if proc.returncode != 0:
         raise RuntimeError(f"fresh_run failed rc={proc.returncode}: {proc.stderr[-2000:]}")
     line = [ln for ln in proc.stdout.splitlines() if ln.startswith("RESULT ")][-1]
